@@ -1,12 +1,18 @@
 (* Properties_C12.v — C12: numbers survive text: exact integers, bounded error, never a wrong magnitude.
-   Proved: the integer half at full strength, and the structural half of the floating-point clauses
-   (classification of extremes, no table overrun for any string).  The numeric error bounds (1e-6 / 1e-13
-   on parsing, 1e-6 / 1e-9 on printing) are NOT proved: see C12_accuracy_partial below. *)
+   Proved: the integer half at full strength; the structural half of the floating-point clauses (classification of
+   extremes, no table overrun for any string); and the rounding-error analysis of the conversion itself
+   (Proofs/FloatErr.v, over the reals with Flocq): whatever decimal mantissa and exponent the scanner hands over, the
+   float / double that parse_number builds from them is within 6e-7 (float) or 2e-15 (double) of mant * 10^expo.
+   Still open (see C12_accuracy_partial at the end): the link literal -> (mant, expo) for literals with a decimal
+   point or more digits than the mantissa holds, and the printing bounds. *)
 From Coq Require Import NArith ZArith List Bool.
 From Coq Require Import Floats.SpecFloat.
 From AJ Require Import Model.Base Model.FloatModel Model.Value Model.NumParse Model.JsonSer.
 From AJ Require Import Proofs.JsonSerRT Proofs.NumProofs Proofs.GenAgree.
 From AJ Require Gen.Tables Gen.Config.
+From Coq Require Import Reals.
+From Flocq Require Import Core BinarySingleNaN.
+From AJ Require Import Proofs.FloatErr.
 Local Open Scope Z_scope.
 
 (* every integer literal in [-2^63, 2^64), with any number of leading zeros, parses to exactly that integer
@@ -72,9 +78,97 @@ Theorem C12_source_agrees :
 Proof. repeat split; reflexivity. Qed.
 Print Assumptions C12_source_agrees.
 
-(* C12_accuracy_partial — NOT a theorem: the bounds |parse(l) - v| <= 1e-6|v| (1e-13|v| beyond seven digits)
-   and |print(x) - x| <= 1e-6 / 1e-9 * max(1,|x|) need a rounding-error analysis of the chains of SFmul in
-   make_float / normalize (at most 9 multiplications by table constants); it is not done.  What stands in for it:
+(* ---- rounding-error analysis (real numbers; SF2R radix2 r is the real value of the finite binary float r;
+   p10 e = 10^e; sgnR neg = -1 or 1).  These theorems depend on the axioms of the standard library's Reals
+   (listed by Print Assumptions below and in the trusted base). ---- *)
+
+(* the tables in the source are the correctly rounded powers 10^(2^k) and 10^-(2^k) *)
+Theorem C12_tables_are_powers_of_ten : forall k, (k < 9)%nat ->
+  (Rabs (SF2R radix2 (nth k (pow10_table F64 true) S754_nan) - p10 (2 ^ Z.of_nat k))
+     <= bpow radix2 (-53) * p10 (2 ^ Z.of_nat k))%R /\
+  (Rabs (SF2R radix2 (nth k (pow10_table F64 false) S754_nan) - p10 (- 2 ^ Z.of_nat k))
+     <= bpow radix2 (-53) * p10 (- 2 ^ Z.of_nat k))%R.
+Proof. intros k Hk. split; [exact (table64_pos_accuracy k Hk) | exact (table64_neg_accuracy k Hk)]. Qed.
+Print Assumptions C12_tables_are_powers_of_ten.
+
+(* the model's multiplication is IEEE-754 round-to-nearest-even multiplication (Flocq's) *)
+Theorem C12_multiplication_is_ieee : forall x y,
+  valid F64 x -> valid F64 y -> FloatModel.is_finite x = true -> FloatModel.is_finite y = true ->
+  (bpow radix2 (-1000) <= Rabs (SF2R radix2 x * SF2R radix2 y) <= bpow radix2 1000)%R ->
+  SF2R radix2 (fmul F64 x y)
+    = round radix2 (FLT_exp (-1074) 53) ZnearestE (SF2R radix2 x * SF2R radix2 y) /\
+  (exists d, (Rabs d <= bpow radix2 (-53))%R /\
+     SF2R radix2 (fmul F64 x y) = (SF2R radix2 x * SF2R radix2 y * (1 + d))%R) /\
+  valid F64 (fmul F64 x y) /\ FloatModel.is_finite (fmul F64 x y) = true.
+Proof. exact fmul64_correct. Qed.
+Print Assumptions C12_multiplication_is_ieee.
+
+(* default configuration (doubles enabled): any decimal mantissa below 2^53 and any exponent in -290..290 gives either a
+   float within 6e-7 (only when the mantissa fits 23 bits and |expo| <= 38: at most seven significant digits) or a
+   double within 2e-15 of mant * 10^expo; finite, correctly signed — far inside the 1e-6 / 1e-13 the property asks *)
+Theorem C12_conversion_accuracy : forall c neg mant expo, use_double c = true ->
+  1 <= mant < 2 ^ 53 -> -290 <= expo <= 290 ->
+  (exists r, finish c neg mant expo = NumFloat r /\ valid F32 r /\
+     FloatModel.is_finite r = true /\
+     (Rabs (SF2R radix2 r - sgnR neg * (IZR mant * p10 expo)) <= 6e-7 * (IZR mant * p10 expo))%R)
+  \/
+  (exists r, finish c neg mant expo = NumDouble r /\ valid F64 r /\
+     FloatModel.is_finite r = true /\
+     (Rabs (SF2R radix2 r - sgnR neg * (IZR mant * p10 expo)) <= 2e-15 * (IZR mant * p10 expo))%R).
+Proof. exact finish_accuracy. Qed.
+Print Assumptions C12_conversion_accuracy.
+
+(* more than seven significant digits (mantissa beyond 23 bits) or a large exponent: always the double path *)
+Theorem C12_conversion_accuracy_double : forall c neg mant expo, use_double c = true ->
+  1 <= mant < 2 ^ 53 -> -290 <= expo <= 290 ->
+  (mant > 2 ^ 23 - 1 \/ expo < -38 \/ expo > 38) ->
+  exists r, finish c neg mant expo = NumDouble r /\ valid F64 r /\
+    FloatModel.is_finite r = true /\
+    (Rabs (SF2R radix2 r - sgnR neg * (IZR mant * p10 expo)) <= 2e-15 * (IZR mant * p10 expo))%R.
+Proof. exact finish_double_accuracy. Qed.
+Print Assumptions C12_conversion_accuracy_double.
+
+(* over the whole exponent range the classification lets through: an infinity or an accurate finite value —
+   never a finite value of the wrong magnitude (for values above the subnormal range) *)
+Theorem C12_never_wrong_magnitude : forall c neg mant expo, use_double c = true ->
+  1 <= mant < 2 ^ 53 -> -328 <= expo <= 308 ->
+  (mant > 2 ^ 23 - 1 \/ expo < -38 \/ expo > 38) ->
+  (bpow radix2 (-1021) <= IZR mant * p10 expo)%R ->
+  exists r, finish c neg mant expo = NumDouble r /\
+    ((exists s, r = S754_infinity s) \/
+     (valid F64 r /\ FloatModel.is_finite r = true /\
+      (Rabs (SF2R radix2 r - sgnR neg * (IZR mant * p10 expo)) <= 2e-15 * (IZR mant * p10 expo))%R)).
+Proof. exact finish_double_total. Qed.
+Print Assumptions C12_never_wrong_magnitude.
+
+(* float-only configuration (ARDUINOJSON_USE_DOUBLE=0) *)
+Theorem C12_conversion_accuracy_float_only : forall c neg mant expo, use_double c = false ->
+  1 <= mant < 2 ^ 24 -> -38 <= expo <= 38 ->
+  exists r, finish c neg mant expo = NumFloat r /\
+    ((exists s, r = S754_infinity s) \/
+     (valid F32 r /\ FloatModel.is_finite r = true /\
+      (Rabs (SF2R radix2 r - sgnR neg * (IZR mant * p10 expo)) <= 6e-7 * (IZR mant * p10 expo))%R)).
+Proof. exact finish_float_cfg_total. Qed.
+Print Assumptions C12_conversion_accuracy_float_only.
+
+(* end to end for literals  [sign] digits (e|E) [sign] digits  (no decimal point) *)
+Theorem C12_exponent_literals_double : forall c (sg : option bool) ds eb (esg : option bool) es,
+  use_double c = true ->
+  Forall digitb ds -> 1 <= dec ds 0 <= 2 ^ 52 - 1 -> (eb = 101 \/ eb = 69)%N ->
+  Forall digitb es -> dec es 0 <= 290 ->
+  let E := if sign_neg esg then - dec es 0 else dec es 0 in
+  (dec ds 0 > 2 ^ 23 - 1 \/ E < -38 \/ E > 38) ->
+  exists r, parse_number c (sign_bytes sg ++ ds ++ eb :: sign_bytes esg ++ es) = NumDouble r /\
+    valid F64 r /\ FloatModel.is_finite r = true /\
+    (Rabs (SF2R radix2 r - sgnR (sign_neg sg) * (IZR (dec ds 0) * p10 E))
+       <= 2e-15 * (IZR (dec ds 0) * p10 E))%R.
+Proof. exact exp_literal_double_accuracy. Qed.
+Print Assumptions C12_exponent_literals_double.
+
+(* C12_accuracy_partial — what is NOT yet a theorem: (a) for literals with a decimal point or with more digits than the
+   mantissa holds, that the (mant, expo) the scanner hands to [finish] is within the truncation error of the literal's
+   value (the conversion from there on is C12_conversion_accuracy); (b) the printing bounds |print(x) - x| <=
+   1e-6 / 1e-9 * max(1,|x|) (normalize + decomposeFloat).  What stands in for them:
    the model of parseNumber / writeFloat is bit-exact against the library on every run (SpecFloat arithmetic),
    and the library's results are checked against these tolerances with exact rational arithmetic on tens of
    thousands of literals and values aimed at the boundaries. *)
